@@ -108,3 +108,19 @@ def replay_case(path: str) -> int:
         print(json.dumps(body, indent=1)[:4000])
     d.close()
     return 0
+
+
+def load_corpus(prop: str):
+    """minimised past failures (recipes that exposed a seeded or genuine defect): run first by the checks"""
+    from common import VERIF
+    from recipes import unpack
+    out = []
+    d = VERIF / "corpus" / prop
+    if d.is_dir():
+        for f in sorted(d.glob("*.json")):
+            try:
+                b = json.loads(f.read_text())
+                out.append((f.name, unpack(b["program_pickle"]), b["version"], b.get("options", {})))
+            except Exception:  # noqa: BLE001
+                continue
+    return out
